@@ -6,6 +6,7 @@ import os
 from collections import Counter
 
 import vlib
+from pipes import ext1
 
 TIERS = {
     "quick": {"NM": 2, "names": ("a", "b"), "durs": (7,)},
@@ -61,7 +62,7 @@ def _split(path, parts):
     per = max(1, len(lines) // parts)
     outs, cur = [], []
     for ln in lines:
-        if ln.startswith(b'{"op":"reset"}') and len(cur) >= per and len(outs) < parts - 1:
+        if b'"op":"reset"' in ln and len(cur) >= per and len(outs) < parts - 1:
             outs.append(cur)
             cur = []
         cur.append(ln)
@@ -76,15 +77,15 @@ def _split(path, parts):
     return res
 
 
-def _side(impl, exe, script, nscripts, ncalls, T, tier):
+def _side(impl, exe, sc, T, tier):
     tp = os.path.join(vlib.workdir("traces"), "lock_%s_%s.ndjson" % (impl, tier))
-    rc, err = vlib.run([exe, "replay", str(T["NM"]), str(len(T["names"])), script], tp)
-    unsupported = sorted({l for l in err.splitlines() if l.startswith("UNSUPPORTED")})
-    got = sum(1 for _ in open(tp, "rb"))
-    if not unsupported and got != nscripts + ncalls:       # vacuity guard: one event per call, one marker per script
-        raise vlib.ModelFailure("lock driver (%s): %d lines for %d scripts with %d calls" % (impl, got, nscripts, ncalls))
+    r = ext1.replay(lambda sp: [exe, "replay", str(T["NM"]), str(len(T["names"])), sp], sc, tp, "lock_%s_%s" % (impl, tier))
+    unsupported = sorted({l for l in r["stderr"] if l.startswith("UNSUPPORTED")})
+    ncalls = sum(len(s) for s in sc)
+    if not unsupported and not r["traps"] and r["lines"] != len(sc) + ncalls:   # vacuity guard: one event per call, one marker per script
+        raise vlib.ModelFailure("lock driver (%s): %d lines for %d scripts with %d calls" % (impl, r["lines"], len(sc), ncalls))
     tv = vlib.tv_parallel("LockTrace.tla", "LockTrace.cfg", _split(tp, 4), "lock_tv_%s_%s" % (impl, tier), par=4, heap="1g")
-    return tv, unsupported
+    return tv, unsupported, len(r["traps"])
 
 
 def pipeline(tier, rep, calibrate=None):
@@ -92,16 +93,15 @@ def pipeline(tier, rep, calibrate=None):
     if calibrate is None:
         calibrate = os.environ.get("VERIF_CALIBRATE", "1") != "0"
     script, sc, T = model(tier, rep)
-    ncalls = sum(len(s) for s in sc)
     jobs = [dict(src="lock_driver.cpp", out="lock_etl")]
     if calibrate:
         jobs.append(dict(src="lock_driver.cpp", out="lock_std", flags=["-DVH_STD"], include_repo=False))
     bins = vlib.build_many(jobs)
     with ThreadPoolExecutor(max_workers=2) as ex:
-        fe = ex.submit(_side, "etl", bins[0], script, len(sc), ncalls, T, tier)
-        fs = ex.submit(_side, "std", bins[1], script, len(sc), ncalls, T, tier) if calibrate else None
-        tv, unsup = fe.result()
-        ctv, cunsup = fs.result() if fs else (None, [])
+        fe = ex.submit(_side, "etl", bins[0], sc, T, tier)
+        fs = ex.submit(_side, "std", bins[1], sc, T, tier) if calibrate else None
+        tv, unsup, ntraps = fe.result()
+        ctv, cunsup, _ = fs.result() if fs else (None, [], 0)
     if calibrate:
         if ctv["deviations"]:
             d = ctv["deviations"][0]
@@ -111,5 +111,5 @@ def pipeline(tier, rep, calibrate=None):
             raise vlib.ModelFailure("calibration build lacks operations: %s" % cunsup)
         rep.cov["modules"]["Lock"]["calibration_events_std"] = ctv["events"]
     rep.add_tv("Lock", tv, len(sc))
-    rep.cov["modules"]["Lock"]["not_drivable"] = unsup
+    rep.cov["modules"]["Lock"].update({"not_drivable": unsup, "crashes_contained": ntraps})
     return tv
